@@ -207,7 +207,10 @@ def histories(tier, seed, prop):
 def comparison_lines():
     """Universe of spec/MC_PamsOrder.cfg as real Order objects; every operator on every same-side pair."""
     lines = []
-    for buy in (True, False):
+    # the model compares ranks 2 < 4 < 6; the real orders carry these ranks on three price scales: plain, adjacent
+    # levels of a fine grid far from zero (relative difference 3e-10) and adjacent integers at 1e12
+    scales = [("unit", lambda px: float(px)), ("fine", lambda px: 30000.0 + px * 0.00001), ("huge", lambda px: 1e12 + px)]
+    for buy, (scale, fpx) in [(b, sc) for b in (True, False) for sc in scales]:
         orders = []
         for oid in (0, 1, 2, 3):
             for t0 in (0, 1, 2):
@@ -215,7 +218,7 @@ def comparison_lines():
                 for px in (2, 4, 6):
                     orders.append((oid, 0, px, t0))
         objs = [Order(agent_id=0, market_id=0, is_buy=buy, kind=MARKET_ORDER if mo else LIMIT_ORDER, volume=1,
-                      placed_at=t0, price=None if mo else float(px), order_id=oid) for (oid, mo, px, t0) in orders]
+                      placed_at=t0, price=None if mo else fpx(px), order_id=oid) for (oid, mo, px, t0) in orders]
         mats = {k: [] for k in ("lt", "gt", "eq", "ne", "le", "ge")}
         for a in objs:
             rows = {k: [] for k in mats}
@@ -228,7 +231,7 @@ def comparison_lines():
                         rows[key].append(2)
             for k in mats:
                 mats[k].append(rows[k])
-        doc = {"buy": buy, "orders": [list(o) for o in orders]}
+        doc = {"buy": buy, "scale": scale, "orders": [list(o) for o in orders]}
         doc.update(mats)
         lines.append(doc)
     return lines
